@@ -4,7 +4,7 @@ T(a, s) == [abs |-> a, segs |-> s]
 F(n) == [k |-> "file", n |-> n, to |-> T(FALSE, <<>>)]
 L(n, t) == [k |-> "link", n |-> n, to |-> t]
 Targets == { T(FALSE, <<"..", "sent">>), T(TRUE, <<"w", "sent">>), T(FALSE, <<"..", "sdir">>), T(FALSE, <<"b">>), T(TRUE, <<"w", "new">>),
-             T(FALSE, <<"..", "..", "sdir", "new">>) }
+             T(FALSE, <<"..", "..", "sdir", "new">>), T(FALSE, <<"..", "out2">>), T(FALSE, <<"..">>) }
 Names   == { <<"a">>, <<"b">>, <<"..", "a">>, <<"a", "b">>, <<"..">> }
 QEntries == { F(n) : n \in Names } \cup { L(n, t) : n \in { <<"a">>, <<"b">>, <<"..", "a">> }, t \in Targets }
 QDirNames == { <<"a">>, <<"b">> }
